@@ -45,6 +45,19 @@ WRAP_FILLERS = ['PT(S)', 'H(S)', 'O(S)', 'OH(S)', 'H2O(S)', 'CO(S)', 'CO2(S)', '
 METALS = ['Pt', 'Ni', 'Cu', 'Fe']
 BEP_NAMES = ['C-H', 'N-H', 'O-H', 'C-C', 'C-O', 'NH-H', 'NH2-H', 'N-N']
 SURF_TAGS = ['T', 'S', 'X1', 'F']
+NOTE_WORDS = ['stepped', 'surface', 'of', 'the', 'catalyst', 'after', 'reduction', 'in', 'H2', 'at', '673', 'K',
+              'DFT', 'PBE-D3', 'slab', 'four', 'layers', 'p(3x3)', 'cell', 'see', 'ref.', '12', 'and', 'SI',
+              'a', 'terrace', 'sites', 'only', 'coverage', 'dependent', 'fit', 'to', 'TPD', 'data']
+
+
+def gen_note(rng, short):
+    """None, a short note, or a multi-word note long enough to be wrapped by the CTI writer"""
+    r = rng.random()
+    if r < 0.4:
+        return None
+    if r < 0.65:
+        return short
+    return ' '.join(rng.choice(NOTE_WORDS) for _ in range(rng.randint(5, 16)))
 
 
 def _r(rng, lo, hi, nd=4):
@@ -156,7 +169,7 @@ def gen_model(rng, tier, **force):
             species.append(gen_species_spec(rng, nm, kind_of(), gname, _elements(rng), None))
             names.add(nm)
         phases.append({'type': 'IdealGas', 'name': gname, 'species': list(gas_names),
-                       'note': rng.choice([None, None, 'feed'])})
+                       'note': gen_note(rng, 'feed')})
     bulk_name = None
     if 'b' in parts:
         bulk_name = rng.choice(['bulk', 'b1'])
@@ -165,7 +178,7 @@ def gen_model(rng, tier, **force):
         names.add(nm)
         phases.append({'type': 'StoichSolid', 'name': bulk_name, 'species': [nm],
                        'density': float('%.5g' % rng.uniform(1.5, 22.0)),
-                       'note': rng.choice([None, metal + ' metal'])})
+                       'note': gen_note(rng, metal + ' metal')})
     remaining = max(n_surf_ph * 2, n_total - len(species))
     surf = []
     tags = rng.sample(SURF_TAGS, n_surf_ph)
@@ -184,7 +197,7 @@ def gen_model(rng, tier, **force):
         ph = {'type': 'InteractingInterface', 'name': pname, 'species': [site] + ads,
               'site_density': float('%.5g' % (10 ** rng.uniform(-10, -8))),
               'phases': others, 'phases_as': rng.choice(['objects', 'names']),
-              'note': rng.choice([None, '%s(111)' % metal])}
+              'note': gen_note(rng, '%s(111)' % metal)}
         phases.append(ph)
         surf.append({'phase': pname, 'site': site, 'ads': ads, 'tag': tag})
 
@@ -299,6 +312,29 @@ def gen_model(rng, tier, **force):
     for r in reactions:
         if r['ts'] and 'bep' in r['ts']:
             r['ts']['bep'] = remap[r['ts']['bep']]
+    # twin BEPs: 2-3 distinct BEP objects with identical parameters (one object per family member, as when
+    # they are built row by row), each used by its own reaction(s); anonymous or with distinct names
+    bep_twins = None
+    users = {}
+    for k, r in enumerate(reactions):
+        if r['ts'] and 'bep' in r['ts']:
+            users.setdefault(r['ts']['bep'], []).append(k)
+    cand = sorted(b for b, ks in users.items() if len(ks) >= 2)
+    if cand and force.get('bep_twins', rng.random() < 0.2):
+        bep_twins = force.get('bep_twins') if isinstance(force.get('bep_twins'), str) else \
+            rng.choice(['unnamed', 'unnamed', 'named'])
+        b = rng.choice(cand)
+        ks = users[b]
+        n_tw = min(len(ks) - 1, rng.randint(1, 2))
+        base_name = beps[b]['name'] or 'X-Y'
+        if bep_twins == 'unnamed':
+            beps[b]['name'] = None
+        for j in range(n_tw):
+            beps.append(dict(beps[b], name=None if bep_twins == 'unnamed' else '%s-%s' % (base_name, 'bc'[j])))
+            reactions[ks[j + 1]]['ts'] = {'bep': len(beps) - 1}
+        for k in ks[n_tw + 1:]:
+            if rng.random() < 0.5:
+                reactions[k]['ts'] = {'bep': len(beps) - 1 - rng.randrange(n_tw)}
 
     interactions = []
     n_int = 0
@@ -337,7 +373,8 @@ def gen_model(rng, tier, **force):
             'beps': beps, 'reactions': reactions, 'interactions': interactions,
             'reactions_arg': 'list' if reactions else rng.choice(['list', 'none']),
             'interactions_arg': 'list' if interactions else rng.choice(['list', 'none']),
-            'first': rng.choice(['cti', 'yaml']), 'ids_mode': user_id_mode,
+            'first': rng.choice(['cti', 'yaml']), 'ids_mode': user_id_mode, 'bep_twins': bep_twins,
+            'rewrite': rng.random() < (0.6 if bep_twins else 0.1),
             'line_lens': [rng.choice([40, 50, 60, 72, 79, 80, 81, 100, 132])
                           for _ in range(rng.choice([0, 1, 1, 2]))],
             'fresh_second': rng.random() < 0.3,
@@ -480,7 +517,25 @@ def gen_history(rng, tier, **force):
         init = None if rng.random() < 0.6 else rng.sample(range(n_pool), rng.randint(0, min(3, n_pool)))
         if flavour == 'wrap' and k == 0:
             init = rng.sample(range(n_pool), rng.randint(max(8, n_pool - 6), n_pool))
-        phases.append({'type': t, 'name': 'ph%d' % k, 'init': init})
+        ph = {'type': t, 'name': 'ph%d' % k, 'init': init}
+        if t in ('IdealGas', 'StoichSolid') and rng.random() < 0.4:
+            # homogeneous reactions handed to the phase as base Reaction / ChemkinReaction objects that
+            # carry an id; some are legitimate duplicates (equal content, different ids), some involve a
+            # species of another phase (the phase filters those out)
+            cls = rng.choice(['Reaction', 'ChemkinReaction'])
+            n = rng.randint(2, 7)
+            ids, j = [], rng.randint(0, 5)
+            while len(ids) < n:
+                run = rng.choice([1, 2, 3])
+                ids.extend('g%d_%04d' % (k, j + i) for i in range(run))
+                j += run + rng.randint(1, 3)
+            ids = ids[:n]
+            rng.shuffle(ids)
+            twins = rng.random() < 0.6
+            ph['rxns'] = [{'cls': cls, 'id': i, 'eq': 0 if (twins and q < 3) else rng.randint(0, 3),
+                           'foreign': (not (twins and q < 3)) and rng.random() < 0.2}
+                          for q, i in enumerate(ids)]
+        phases.append(ph)
     # 1..n_ph exist from the start, the rest are created by a 'new' operation
     n_start = rng.randint(1, n_ph)
     pending = list(range(n_start, n_ph))
